@@ -19,6 +19,7 @@ CONSTANTS
   HealOdds = 3
   ListLag = FALSE
   FixSkew = FALSE
+  MaxMods = 0
   Edge = FALSE
 VIEW View
 INVARIANTS TypeOK InvExclusion InvHolderHasFile InvNotStale InvFresh
